@@ -240,7 +240,7 @@ int main(void) {
 			if (rc == KSI_OK) { const unsigned char *imp; size_t il; KSI_DataHash_getImprint(h, &imp, &il); printf(" imprint="); hx_print(imp, il); }
 			printf("\n"); KSI_DataHash_free(h); KSI_CTX_free(c2); free(k); free(d); free(ks);
 		} else if (!strcmp(tok[0], "VERIFY")) {
-			/* VERIFY <policy> <sigHex> <userPubTime:imprintHex|-> <pubfileHex|-> <extendingAllowed 0|1> [<docHex|->]   (blocking context from BNEW; the extender is endpoint 1) */
+			/* VERIFY <policy> <sigHex> <userPubTime:imprintHex|-> <pubfileHex|-> <extendingAllowed 0|1> [<docHex|-> [<level|->]]   (blocking context from BNEW; the extender is endpoint 1) */
 			size_t sl, pl = 0; unsigned char *sb = hx_dec(tok[2], &sl), *pb = NULL; KSI_Signature *sig = NULL; KSI_PublicationsFile *pf = NULL; KSI_PublicationData *up = NULL;
 			KSI_PolicyVerificationResult *result = NULL; KSI_VerificationContext vc; KSI_DataHash *doc = NULL; int rc, prc; unsigned char *before = NULL, *after = NULL; size_t bl = 0, al = 0;
 			const KSI_Policy *pol = !strcmp(tok[1], "KEY") ? KSI_VERIFICATION_POLICY_KEY_BASED : !strcmp(tok[1], "CAL") ? KSI_VERIFICATION_POLICY_CALENDAR_BASED :
@@ -257,6 +257,7 @@ int main(void) {
 				KSI_Signature_serialize(sig, &before, &bl);
 				KSI_VerificationContext_init(&vc, ctx);
 				vc.signature = sig; vc.userPublication = up; vc.userPublicationsFile = pf; vc.extendingAllowed = atoi(tok[5]); vc.documentHash = doc;
+				if (n > 7 && strcmp(tok[7], "-")) vc.docAggrLevel = strtoull(tok[7], NULL, 10);
 				rc = KSI_SignatureVerifier_verify(pol, &vc, &result);
 				KSI_Signature_serialize(sig, &after, &al);
 				printf("R verify rc=0x%x", rc);
